@@ -6,6 +6,7 @@ import (
 	"fmt"
 	"go/types"
 	"os"
+	"runtime/debug"
 	"sort"
 	"strconv"
 	"strings"
@@ -24,6 +25,12 @@ func register(id string, f func(p *Prog, r *Report)) {
 }
 
 func main() {
+	// The loaded program (all packages with syntax, SSA, provenance memos) is about 3 GB live; without a limit the heap grows to almost 5 GB on an
+	// idle machine, which matters when many checks run side by side. A soft limit makes the
+	// collector work earlier (GOMEMLIMIT in the environment overrides it).
+	if os.Getenv("GOMEMLIMIT") == "" {
+		debug.SetMemoryLimit(4 << 30)
+	}
 	prop := flag.String("prop", "", "property id (C01..C20)")
 	tier := flag.String("tier", "quick", "quick|thorough")
 	repo := flag.String("repo", "/repo", "repository root")
